@@ -22,6 +22,7 @@ variable [Rules]
 
 /-! ### `updFirst` on explicit lists -/
 
+omit [Rules] in
 theorem updFirst_skip {p : Obj → Bool} {u : Obj → Obj} : ∀ {l1 : List Obj} (l2 : List Obj),
     (∀ o, o ∈ l1 → p o = false) → updFirst p u (l1 ++ l2) = l1 ++ updFirst p u l2
   | [], _, _ => rfl
@@ -33,14 +34,17 @@ theorem updFirst_skip {p : Obj → Bool} {u : Obj → Obj} : ∀ {l1 : List Obj}
     simp only [Bool.false_eq_true, if_false]
     rw [ih]
 
+omit [Rules] in
 theorem updFirst_hit {p : Obj → Bool} {u : Obj → Obj} {o : Obj} (l : List Obj) (h : p o = true) :
     updFirst p u (o :: l) = u o :: l := by
   rw [updFirst, h]; rfl
 
+omit [Rules] in
 theorem updFirst_miss {p : Obj → Bool} {u : Obj → Obj} {o : Obj} (l : List Obj) (h : p o = false) :
     updFirst p u (o :: l) = o :: updFirst p u l := by
   rw [updFirst, h]; rfl
 
+omit [Rules] in
 theorem updFirst_id (p : Obj → Bool) : ∀ l : List Obj, updFirst p (fun o => o) l = l
   | [] => rfl
   | a :: as => by
@@ -49,6 +53,7 @@ theorem updFirst_id (p : Obj → Bool) : ∀ l : List Obj, updFirst p (fun o => 
     · rfl
     · rw [updFirst_id p as]
 
+omit [Rules] in
 theorem updFirst_updFirst {p : Obj → Bool} {u1 u2 : Obj → Obj} (hp : ∀ o, p (u1 o) = p o) : ∀ l : List Obj,
     updFirst p u2 (updFirst p u1 l) = updFirst p (fun o => u2 (u1 o)) l
   | [] => rfl
@@ -69,17 +74,20 @@ def fnEffect (cur : Option Name) (gs : List Obj) (l : List Name) : List Obj :=
   | some f => updFunc gs f (addRefsO l)
   | none => l.foldl (fun gs g => updFunc gs g setRootO) gs
 
+omit [Rules] in
 theorem updFunc_cons_data {o : Obj} (h : o.isFunction = false) (gs : List Obj) (f : Name) (u : Obj → Obj) :
     updFunc (o :: gs) f u = o :: updFunc gs f u := by
   unfold updFunc
   rw [updFirst_miss]
   simp [h]
 
+omit [Rules] in
 theorem updFunc_data_append {l1 : List Obj} (h : ∀ o, o ∈ l1 → o.isFunction = false) (gs : List Obj) (f : Name)
     (u : Obj → Obj) : updFunc (l1 ++ gs) f u = l1 ++ updFunc gs f u := by
   unfold updFunc
   exact updFirst_skip gs (fun o ho => by simp [h o ho])
 
+omit [Rules] in
 theorem fnEffect_cons_data {o : Obj} (h : o.isFunction = false) (cur : Option Name) (gs : List Obj) (l : List Name) :
     fnEffect cur (o :: gs) l = o :: fnEffect cur gs l := by
   cases cur with
@@ -90,14 +98,17 @@ theorem fnEffect_cons_data {o : Obj} (h : o.isFunction = false) (cur : Option Na
     | nil => rfl
     | cons g rest ih => simp only [List.foldl_cons]; rw [updFunc_cons_data h, ih]
 
+omit [Rules] in
 theorem addRefsO_nil : addRefsO [] = fun o => o := by
   funext o; simp [addRefsO]
 
+omit [Rules] in
 theorem fnEffect_nil (cur : Option Name) (gs : List Obj) : fnEffect cur gs [] = gs := by
   cases cur with
   | some f => simp only [fnEffect, addRefsO_nil]; exact updFirst_id _ gs
   | none => rfl
 
+omit [Rules] in
 theorem fnEffect_cons (cur : Option Name) (gs : List Obj) (g : Name) (l : List Name) :
     fnEffect cur (fnEffect cur gs [g]) l = fnEffect cur gs (g :: l) := by
   cases cur with
@@ -135,6 +146,7 @@ def initLabels : Nat → List InitItem → List Sym
   | k, .ref r :: rest => symOfRef r :: initLabels k rest
   | k, .str _ :: rest => .anon k :: initLabels (k + 1) rest
 
+omit [Rules] in
 theorem recordFnRef_exact {cur : Option Name} {st st' : PState} {g : Name} (h : recordFnRef cur st g = .ok st') :
     st' = { st with globals := fnEffect cur st.globals [g] } := by
   unfold recordFnRef at h
@@ -144,6 +156,7 @@ theorem recordFnRef_exact {cur : Option Name} {st st' : PState} {g : Name} (h : 
     | some f => cases h; rfl
     | none => cases h; rfl
 
+omit [Rules] in
 theorem useRef_exact {cur : Option Name} {st st' : PState} {r : Ref} {s : Sym} (h : useRef cur st r = .ok (st', s)) :
     st' = { st with globals := fnEffect cur st.globals (initFnRefs [.ref r]) } ∧ s = symOfRef r := by
   cases r with
@@ -165,10 +178,12 @@ theorem useRef_exact {cur : Option Name} {st st' : PState} {r : Ref} {s : Sym} (
       show st = { st with globals := fnEffect cur st.globals [] }
       rw [fnEffect_nil]
 
+omit [Rules] in
 theorem initFnRefs_cons_ref (r : Ref) (rest : List InitItem) :
     initFnRefs (.ref r :: rest) = initFnRefs [.ref r] ++ initFnRefs rest := by
   cases r <;> simp [initFnRefs]
 
+omit [Rules] in
 theorem fnEffect_append (cur : Option Name) (gs : List Obj) (a b : List Name) :
     fnEffect cur (fnEffect cur gs a) b = fnEffect cur gs (a ++ b) := by
   cases cur with
@@ -244,15 +259,18 @@ abbrev SEnv := Name → Bool
 
 def envSet (env : SEnv) (x : Name) (b : Bool) : SEnv := fun y => if y = x then b else env y
 
+omit [Rules] in
 theorem findObj_cons_anon {o : Obj} {k : Nat} (h : o.sym = .anon k) (gs : List Obj) (x : Name) :
     findObj (o :: gs) x = findObj gs x := by
   have : (Sym.anon k == Sym.named x) = false := by simp
   simp [findObj, List.find?, h, this]
 
+omit [Rules] in
 theorem findObj_cons_fn {o : Obj} (h : o.isFunction = true) (gs : List Obj) (x : Name) :
     findObj (o :: gs) x = findObj gs x := by
   simp [findObj, List.find?, h]
 
+omit [Rules] in
 theorem findObj_append_anon {l : List Obj} (h : ∀ o, o ∈ l → ∃ k, o.sym = .anon k) (gs : List Obj) (x : Name) :
     findObj (l ++ gs) x = findObj gs x := by
   induction l with
@@ -261,6 +279,7 @@ theorem findObj_append_anon {l : List Obj} (h : ∀ o, o ∈ l → ∃ k, o.sym 
     obtain ⟨k, hk⟩ := h a List.mem_cons_self
     rw [List.cons_append, findObj_cons_anon hk, ih (fun o ho => h o (List.mem_cons_of_mem _ ho))]
 
+omit [Rules] in
 theorem findObj_updFunc {u : Obj → Obj} (hu : KeepsId u) : ∀ (gs : List Obj) (f x : Name),
     findObj (updFunc gs f u) x = findObj gs x
   | [], _, _ => rfl
@@ -276,17 +295,21 @@ theorem findObj_updFunc {u : Obj → Obj} (hu : KeepsId u) : ∀ (gs : List Obj)
       simp only [Bool.and_eq_true] at hp
       rw [findObj_cons_fn (by rw [(hu a).1]; exact hp.1), findObj_cons_fn hp.1]
 
+omit [Rules] in
 theorem prevStatic_congr {gs gs' : List Obj} (h : ∀ x, findObj gs x = findObj gs' x) : prevStatic gs = prevStatic gs' := by
   funext x; simp [prevStatic, h x]
 
+omit [Rules] in
 theorem prevStatic_updFunc {u : Obj → Obj} (hu : KeepsId u) (gs : List Obj) (f : Name) :
     prevStatic (updFunc gs f u) = prevStatic gs :=
   prevStatic_congr (fun x => findObj_updFunc hu gs f x)
 
+omit [Rules] in
 theorem prevStatic_append_anon {l : List Obj} (h : ∀ o, o ∈ l → ∃ k, o.sym = .anon k) (gs : List Obj) :
     prevStatic (l ++ gs) = prevStatic gs :=
   prevStatic_congr (fun x => findObj_append_anon h gs x)
 
+omit [Rules] in
 theorem prevStatic_cons_named {o : Obj} {x : Name} (hf : o.isFunction = false) (hs : o.sym = .named x) (gs : List Obj) :
     prevStatic (o :: gs) = envSet (prevStatic gs) x o.isStatic := by
   funext y
@@ -297,6 +320,7 @@ theorem prevStatic_cons_named {o : Obj} {x : Name} (hf : o.isFunction = false) (
       simp only [beq_eq_false_iff_ne, ne_eq, Sym.named.injEq]; exact fun e => hy e.symm
     simp [prevStatic, findObj, List.find?, hf, hs, envSet, hy, this]
 
+omit [Rules] in
 theorem prevStatic_fnEffect (cur : Option Name) (gs : List Obj) (l : List Name) : prevStatic (fnEffect cur gs l) = prevStatic gs := by
   cases cur with
   | some f => exact prevStatic_updFunc (u := addRefsO l) (fun _ => ⟨rfl, rfl⟩) gs f
@@ -591,15 +615,18 @@ theorem declNews_data (k : Nat) (env : SEnv) (d : Decl) : ∀ o, o ∈ declNews 
 /-- the non-function objects of a list, in order -/
 def dataOf (gs : List Obj) : List Obj := gs.filter (fun o => !o.isFunction)
 
+omit [Rules] in
 theorem dataOf_append (a b : List Obj) : dataOf (a ++ b) = dataOf a ++ dataOf b := by
   simp [dataOf]
 
+omit [Rules] in
 theorem dataOf_of_data {l : List Obj} (h : ∀ o, o ∈ l → o.isFunction = false) : dataOf l = l := by
   unfold dataOf
   rw [List.filter_eq_self]
   intro o ho
   simp [h o ho]
 
+omit [Rules] in
 theorem dataOf_updFunc {u : Obj → Obj} (hu : KeepsId u) : ∀ (gs : List Obj) (f : Name), dataOf (updFunc gs f u) = dataOf gs
   | [], _ => rfl
   | a :: as, f => by
@@ -614,9 +641,11 @@ theorem dataOf_updFunc {u : Obj → Obj} (hu : KeepsId u) : ∀ (gs : List Obj) 
       simp only [Bool.and_eq_true] at hp
       simp [dataOf, (hu a).1, hp.1]
 
+omit [Rules] in
 theorem dataOf_cons_fn {o : Obj} (h : o.isFunction = true) (gs : List Obj) : dataOf (o :: gs) = dataOf gs := by
   simp [dataOf, h]
 
+omit [Rules] in
 theorem dataOf_fnEffect (cur : Option Name) (gs : List Obj) (l : List Name) : dataOf (fnEffect cur gs l) = dataOf gs := by
   cases cur with
   | some f => exact dataOf_updFunc (u := addRefsO l) (fun _ => ⟨rfl, rfl⟩) gs f
